@@ -163,7 +163,12 @@ def oracle(scn, res):
     sran = [l.split(" ")[1] for l in base["trace"] if l.startswith("B ")]
     # more than once only where the scripts themselves force it (`redo x` inside a script), and then never more often
     # than the serial run
-    dup = sorted({x for x in ran if ran.count(x) > max(1, sran.count(x))})
+    # (judged absolutely, not against the serial run of the same binary -- which may be wrong in the same way)
+    forced = {n for vs in scn["world"].rules.values() for sp in vs for cmd, names in sp.seq if cmd != "ifchange" for n in names}
+    dup = sorted({x for x in ran if ran.count(x) > (max(1, sran.count(x)) if x in forced else 1)})
+    sdup = sorted({x for x in sran if sran.count(x) > 1 and x not in forced})
+    if sdup:
+        out.append(({"kind": "built-more-than-once-in-the-serial-run", "scenario": scn["name"], "targets": sdup}, {"ran": sran}))
     if dup:
         out.append(({"kind": "built-more-than-once-in-one-run", "scenario": scn["name"], "targets": dup}, {"ran": ran}))
     if res["roots"] != base["roots"]:
